@@ -92,9 +92,10 @@ type Sched struct {
 	cidx    int
 	siteOff map[string]bool
 
-	lines   []string // event log (pure function of the decisions)
-	keepLog bool
-	digest  [32]byte
+	lines     []string // event log (pure function of the decisions)
+	keepLog   bool
+	keepDebug bool
+	digest    [32]byte
 
 	preempts int
 	maxSteps int
